@@ -57,6 +57,9 @@ class _Continue(Exception):
   pass
 
 
+_MODEL_KINDS = {"Body", "Div", "P", "Span", "Br", "Text", "Ruby", "Rb", "Rt", "Rp", "Rbc", "Rtc", "Region"}
+
+
 class MiniEval:
   MAX_STEPS = 200000
   MAX_DEPTH = 40
@@ -71,6 +74,7 @@ class MiniEval:
     self.func_hooks = dict(func_hooks or {})          # qualname of a package function -> stand-in (answers a call from tables the caller extracted)
     self.node_classes = dict(node_classes or {})      # node kind -> class of the package whose methods are interpreted on the node
     self.opaque = set(opaque_calls)
+    self.init_modules: typing.Set[str] = set()        # modules whose plain classes are built by interpreting their __init__
     self.opaque_results = dict(opaque_calls) if isinstance(opaque_calls, dict) else {}
 
   # ---------------------------------------------------------------------------------------
@@ -221,6 +225,8 @@ class MiniEval:
         finally:
           pass
         self.block(st.finalbody, env, f, depth)
+      elif isinstance(st, ast.ClassDef) and isinstance(getattr(st, "_info", None), ClassInfo):
+        env[st.name] = st._info            # a class defined inside the function (an enumeration of states, say)
       else:
         raise NotConst(f"statement {type(st).__name__} at line {st.lineno}")
 
@@ -233,7 +239,8 @@ class MiniEval:
   @staticmethod
   def truth(v):
     if isinstance(v, Node):
-      return True
+      # model.ContentElement defines __len__ (the number of children): an element without children is false
+      return bool(v.children) if v.kind in _MODEL_KINDS else True
     if isinstance(v, Sym):
       raise NotConst("truth of an opaque value")
     return bool(v)
@@ -243,6 +250,11 @@ class MiniEval:
       return v                       # an iterator made by iter(): consumed lazily, as in the language
     if isinstance(v, Node):
       return list(v.children)
+    if isinstance(v, dict) and v.get("__record__"):
+      m_ = self._record_method(v, "__iter__")
+      if m_ is not None:
+        return self.iterate(self.call(m_, [v], None, {}, 1))
+      raise NotConst("iteration over a record")
     if isinstance(v, (list, tuple, set, frozenset, dict, str, range)):
       return list(v)
     if isinstance(v, ClassInfo) and self.ix.is_enum(v):
@@ -445,6 +457,11 @@ class MiniEval:
         if key in tbl:
           return tbl[key]
         raise Raised()
+      if isinstance(base, dict) and base.get("__record__"):
+        m_ = self._record_method(base, "__getitem__")
+        if m_ is None:
+          raise Raised()
+        return self.call(m_, [base, key], None, {}, depth + 1)
       if isinstance(base, (list, tuple, str, dict)):
         try:
           return base[key]
@@ -524,6 +541,10 @@ class MiniEval:
         val = Sym(unparse(expr))
       out[name] = EnumMember(ci.qualname, name, val)
     return out
+
+  def _record_method(self, rec, name):
+    ci_ = rec.get("__class__") or next((c for c in self.ix.classes.values() if c.name == rec["__record__"]), None)
+    return self.ix.lookup_method(ci_, name) if ci_ is not None else None
 
   def _enum_fields(self, member, depth=0):
     """the instance fields an enumeration's __init__ gives a member (run once per member on its value tuple)"""
@@ -636,6 +657,10 @@ class MiniEval:
       rx_ = self._class_regex(base, e.attr)
       if rx_ is not None:
         return rx_
+      if self.ix.is_enum(base):
+        tbl_ = self._enum_table(base, f)
+        if e.attr in tbl_:
+          return tbl_[e.attr]
       m = self.ix.lookup_method(base, e.attr)
       if m is not None:
         return ("closure", m, {})
@@ -749,10 +774,35 @@ class MiniEval:
         if b == "map":
           return [_apply(*xs) for xs in zip(*seqs)]
         return [x for x in seqs[0] if self.truth(_apply(x))]
+      if b == "type" and len(args) == 1:
+        if isinstance(args[0], Node):
+          ci_ = self.node_classes.get(args[0].kind) or self.ix.classes.get(f"ttconv.model:{args[0].kind}")
+          if ci_ is not None:
+            return ci_
+        if isinstance(args[0], EnumMember):
+          ci_ = self.ix.classes.get(args[0].cls)
+          if ci_ is not None:
+            return ci_
+        raise NotConst("type() of a value without a class of the package")
+      if b in ("ord", "chr") and len(args) == 1:
+        try:
+          return ord(args[0]) if b == "ord" else chr(args[0])
+        except (TypeError, ValueError):
+          raise Raised()
+      if b == "str" and len(args) == 1 and isinstance(args[0], dict) and args[0].get("__record__"):
+        m_ = self._record_method(args[0], "__str__")
+        if m_ is None:
+          raise NotConst("str() of a record without __str__")
+        return self.call(m_, [args[0]], None, {}, depth + 1)
       if b == "dict":
         return dict(args[0]) if args else dict(kwargs)
       if b == "len":
         v = args[0]
+        if isinstance(v, dict) and v.get("__record__"):
+          m_ = self._record_method(v, "__len__")
+          if m_ is None:
+            raise Raised()
+          return self.call(m_, [v], None, {}, depth + 1)
         return len(v.children) if isinstance(v, Node) else len(v)
       if b == "isinstance":
         if isinstance(args[0], Node):
@@ -811,6 +861,10 @@ class MiniEval:
       if fn.attr == "sub" and len(args) == 3 and all(isinstance(a, str) for a in args):
         return _re.sub(*args)
       raise NotConst(f"re.{fn.attr}")
+    if isinstance(fn, ast.Attribute) and isinstance(fn.value, ast.Name) and fn.value.id == "html" and "html" not in env and fn.attr in ("unescape", "escape") \
+        and args and isinstance(args[0], str):
+      import html as _html
+      return getattr(_html, fn.attr)(*args, **kwargs)
     # unbound methods of str and the pure functions of unicodedata, applied to constants
     if isinstance(fn, ast.Attribute) and isinstance(fn.value, ast.Name) and fn.value.id in ("str", "unicodedata") and fn.value.id not in env:
       if fn.value.id == "str" and hasattr(str, fn.attr) and not fn.attr.startswith("_") and fn.attr not in ("format_map", "maketrans"):
@@ -827,9 +881,12 @@ class MiniEval:
     # super().m(...): the next definition of m in the method resolution order of the enclosing class
     if isinstance(fn, ast.Attribute) and isinstance(fn.value, ast.Call) and isinstance(fn.value.func, ast.Name) and fn.value.func.id == "super" and not fn.value.args \
         and f.cls is not None and "super" not in self.opaque:
+      this_ = env.get("self", env.get("cls"))
+      if isinstance(this_, Node):
+        return self.node_call(this_, fn.attr, args, kwargs, f, depth)      # the base class's effect on a sample node
       for c_ in self.ix.mro(f.cls)[1:]:
         if fn.attr in c_.methods:
-          return self.call(c_.methods[fn.attr], [env.get("self", env.get("cls"))] + list(args), kwargs, {}, depth + 1)
+          return self.call(c_.methods[fn.attr], [this_] + list(args), kwargs, {}, depth + 1)
       if fn.attr == "__init__":
         return None         # object.__init__ / Enum.__init__
       raise NotConst(f"super().{fn.attr}")
@@ -895,7 +952,7 @@ class MiniEval:
           raise NotConst(f"set.{fn.attr}")
         if isinstance(recv, dict) and recv.get("__record__") and fn.attr not in ("get", "items", "keys", "values"):
           # a method of the record's class, bound to the record
-          ci_ = next((c for c in self.ix.classes.values() if c.name == recv["__record__"]), None)
+          ci_ = recv.get("__class__") or next((c for c in self.ix.classes.values() if c.name == recv["__record__"]), None)
           m_ = self.ix.lookup_method(ci_, fn.attr) if ci_ is not None else None
           if m_ is None:
             raise NotConst(f"method {fn.attr} of a record")
@@ -965,6 +1022,11 @@ class MiniEval:
         if type(m_.value) is type(args[0]) and m_.value == args[0]:
           return m_
       raise Raised()
+    if isinstance(callee, ClassInfo) and "__init__" in callee.methods and not any("dataclass" in unparse(d_) for d_ in callee.node.decorator_list) \
+        and not any(c_.qualname in ("ttconv.model:ContentElement", "ttconv.model:Document") for c_ in self.ix.mro(callee)) and callee.qualname.split(":")[0] in self.init_modules:
+      rec = {"__record__": callee.name, "__class__": callee}
+      self.call(callee.methods["__init__"], [rec] + list(args), kwargs, {}, depth + 1)
+      return rec
     if isinstance(callee, ClassInfo):
       # a record (NamedTuple / dataclass of the package) built from sample values
       fields = list(callee.field_order) or list(callee.ann)
